@@ -45,7 +45,7 @@ func scenarios(c *vlib.Ctx) []*slib.Scn {
 	// work launched before the module started, and a service worker that is in its restart back-off when the stop begins
 	for _, trig := range []string{"shutdown", "disable"} {
 		for _, graph := range []string{"single", "chain"} {
-			for _, k := range []string{"prep-worker", "service-backoff"} {
+			for _, k := range []string{"prep-worker", "service-backoff", "service-restartnow"} {
 				add(modules.C05Params{Graph: graph, Items: []string{k}, ItemPts: 1, StopFn: "plain", Trigger: trig}, bound)
 				add(modules.C05Params{Graph: graph, Items: []string{k, "worker"}, ItemPts: 0, StopFn: "none", Trigger: trig}, 2)
 			}
@@ -72,7 +72,7 @@ func scenarios(c *vlib.Ctx) []*slib.Scn {
 func main() {
 	vlib.Main("C05", "model_checking", func(c *vlib.Ctx) {
 		c.Rule("stateless exploration of all interleavings (preemption bound per scenario) of the real modules+log packages, source-instrumented so that every mutex/atomic/abool/channel/select/go operation is a scheduling point; " +
-			"scenarios = {single module, dependent+dependency} x {Shutdown, Disable+ManageModules} x work item multisets (<=2 of worker, service worker, task, high/medium/low/signalled microtask, event hook; plus a worker started at prep time, a service worker in its back-off, a task queued right before the stop) x stop routine variants; single-item drivers under both default schedulers; " +
+			"scenarios = {single module, dependent+dependency} x {Shutdown, Disable+ManageModules} x work item multisets (<=2 of worker, service worker, task, high/medium/low/signalled microtask, event hook; plus a worker started at prep time, a service worker in its back-off, a service worker answering cancellation with ErrRestartNow, a task queued right before the stop) x stop routine variants; single-item drivers under both default schedulers; " +
 			"distinct_nontrivial = distinct observation traces (event order + virtual times) per scenario")
 		c.Assume("sequential consistency; data-race freedom outside the instrumented synchronisation operations; RWMutex modelled without writer preference; time is virtual and advances only when no thread can run")
 		slib.Run(c, scenarios(c), slib.Opts{})
